@@ -180,7 +180,7 @@ def refusal_guards(prog: Program, res: Results) -> None:
         return
     root = roots[0]
     seg_param = next((n.targets[0].id for n in walk_no_nested(f.node) if isinstance(n, ast.Assign) and isinstance(n.targets[0], ast.Name)
-                      and isinstance(n.value, ast.Call) and callee(n.value) == "_parse_npath"), "segments")
+                      and isinstance(n.value, ast.Call) and callee(n.value) in ("_parse_npath", "_format_npath_segments")), "segments")
 
     def one_segment(a, truth):
         t = norm(a)
